@@ -29,12 +29,12 @@ RULE = (
     "other operations in between; distinct by history."
 )
 ASSUMPTIONS = ["the baseline process runs without contracts; equality therefore also shows that the harness-side monitors do not perturb the library"]
-FLOORS = {"quick": {"histories": 40, "seeded_generations_compared": 600, "fingerprints_compared": 3000, "distinct_nontrivial": 30}, "thorough": {"histories": 900}}
+FLOORS = {"quick": {"histories": 40, "seeded_generations_compared": 600, "fingerprints_compared": 3000, "distinct_nontrivial": 30}, "thorough": {"histories": 500}}
 
 
 def plan(tier, seed):
-    n = 48 if tier == "quick" else 1000
-    return [{"seed": seed * 1001303 + i, "len": 60 if tier == "quick" else 160} for i in range(n)]
+    n = 48 if tier == "quick" else 640
+    return [{"seed": seed * 1001303 + i, "len": 60 if tier == "quick" else 120} for i in range(n)]
 
 
 def setup_worker():
